@@ -3,6 +3,7 @@ package main
 import (
 	"encoding/json"
 	"fmt"
+	"runtime/debug"
 	"strings"
 )
 
@@ -131,6 +132,16 @@ func runC14(cases string, res *Result) {
 		oMark, eMark := lexRender(srcMark)
 		oPad, ePad := lexRender(srcPad)
 		res.Evaluations += 2
+		if eMark == nil && ePad == nil && len(oPad) >= 1024 {
+			// a returned result is the caller's: later renders (of any size class) leave it alone
+			if first, now := c14HeldResult(srcPad, srcMark); first != now {
+				res.add(Finding{Kind: "oracle", Where: "render", Case: map[string]interface{}{"pieces": c["pieces"], "at": at, "pad_kind": kind, "pad_len": n, "reps": reps, "stream": c.str("stream")},
+					Expected: clip(first), Observed: clip(now),
+					Detail: fmt.Sprintf("the string returned by a render of %d bytes changed while later templates were rendered", len(first))})
+				return
+			}
+			res.Evaluations += 4
+		}
 		small := map[string]interface{}{"pieces": c["pieces"], "at": at, "pad_kind": kind, "pad_len": n, "reps": reps, "stream": c.str("stream"), "shape": c["shape"]}
 		if eMark != nil {
 			res.add(Finding{Kind: "disagreement", Where: "render", Case: small, Detail: "base template with marker does not render: " + eMark.Error()})
@@ -182,4 +193,28 @@ func c14Replace(s, mark, with string) string {
 		return s
 	}
 	return strings.ReplaceAll(s, mark, with)
+}
+
+// c14HeldResult renders a, keeps the returned string in use, renders b and a again on the same engine (one goroutine,
+// no garbage collection in between, so that pooled buffers really come back), and returns a copy of the first result
+// taken at once and the first result as it is afterwards.
+func c14HeldResult(a, b string) (first, now string) {
+	eng := lexEngine()
+	if eng.RegisterString("ta", a) != nil || eng.RegisterString("tb", b) != nil {
+		return "", ""
+	}
+	defer debug.SetGCPercent(debug.SetGCPercent(-1))
+	ctx := lexCtx()
+	ctx["items"] = []interface{}{1, 2}
+	held, err := eng.Render("ta", ctx)
+	if err != nil {
+		return "", ""
+	}
+	first = strings.Clone(held)
+	for i := 0; i < 3 && held == first; i++ {
+		eng.Render("tb", ctx)
+		eng.Render("ta", ctx)
+		eng.Render("inc", ctx)
+	}
+	return first, held
 }
